@@ -62,8 +62,14 @@ RULE = ("cases = (shape, chunking, dtype, encoded index, value mode). Complete p
         "dask}. non-trivial = some axis split into >= 2 chunks; distinct = distinct (shape, chunks, dtype, index, value mode).")
 ASSUMPTIONS = ["NumPy 2.x assignment defines the expected array", "sync scheduler (threads for a tenth)"]
 BUDGET = {"quick": 120, "thorough": 900}
-FLOORS = {"quick": {"evaluations": 1, "distinct_nontrivial": 1, "counters": {}, "max_skipped_fraction": 0.35},
-          "thorough": {"evaluations": 1, "distinct_nontrivial": 1, "counters": {}, "max_skipped_fraction": 0.35}}
+FLOORS = {"quick": {"evaluations": 3000, "distinct_nontrivial": 2300,
+                    "counters": {"compared": 3000, "chunks_unchanged_checked": 2700, "input_not_mutated_checked": 2700,
+                                 "blocks_checked": 2700, "dask_values": 500},
+                    "sets": {"index_feature_tokens": 45}, "max_skipped_fraction": 0.2},
+          "thorough": {"evaluations": 45000, "distinct_nontrivial": 36000,
+                       "counters": {"compared": 45000, "chunks_unchanged_checked": 40000, "input_not_mutated_checked": 40000,
+                                    "blocks_checked": 40000, "dask_values": 8000},
+                       "sets": {"index_feature_tokens": 60}, "max_skipped_fraction": 0.2}}
 EXHAUSTIVE_SPACE = {
     "quick": "all chunkings of shapes (5,) and (3,2) x the fixed index/value pattern list (PATTERNS_1D, PATTERNS_2D)",
     "thorough": "all chunkings of shapes (5,), (6,), (3,2) and (2,2,2) x the fixed index/value pattern lists",
